@@ -41,17 +41,19 @@ What the summaries still ASSUME: (a) the two stage-1 invariants of the key's vie
 pair: an input assumption); (c) no value frame / no value cell (stage 1 has no value cell).
 
 The closing statement `… → ∃ ops₁, Equiv (abs (run₂ ops)) (run₁ ops₁)` and a transferred stage-1 theorem are in
-`Properties/EngineSimRun.lean` — for runs WITHOUT clock ticks (stage 1's LOCK / UNLOCK respect `Sim.Equiv`: `Proofs/EngineSimCongr.lean`).
+`Properties/EngineSimRun.lean` — for runs WITH clock ticks (stage 1's LOCK / UNLOCK respect `Sim.Equiv`: `Proofs/EngineSimCongr.lean`; its
+`opTick` too: `Proofs/EngineSimTickCongr*.lean`).
 
-NOT proved: `sim_tick` (the two sweeps). What it needs beyond the above: (1) three more record-level invariants — a timeout-wheel
-entry caches its record's back-off counter (`tSched.checked = tChecked`, as `KI.ck` for the expiry wheel), every record's command names
-its key record (`cmd.key = key`: stage 1 finds a collected request's key through its command), the sequence numbers of all wheel
-entries of the DATABASE are below `db.seq` and pairwise distinct (both models process due entries sorted by sequence number; stage 1
-enumerates its key table in a different order); (2) a relation weaker than `Equiv ∘ abs` inside a sweep: the real sweeper pops a due
-long-table entry (`collectT` clears its `long` flag) before firing it, stage 1 does not; (3) per-entry steps: re-arm (`rearmWaiter`
-identifies the request by (RequestId, connection)), the stuttering drops of tombstoned entries, timeout (= `Sim.tomb_live` + wake pass)
-and expiry (= `Sim.abs_removeLock` + wake pass; follower deferral), (4) the fold over the two entry lists (stage 2 visits tombstoned
-entries too), (5) `Equiv`-congruence of stage 1's `opTick` (order-insensitivity of `slotWaiters` / `slotHolds`).
+The clock tick (`sim_tick`: the two sweeps, on the leader) is in `Properties/EngineSimTick.lean`; its header says how each of the items that
+were open here was settled: (1) the record-level invariant `SimTick.KT` (`tSched.checked = tChecked` for live requests, live requests are
+queued, holds are in the holder queue), "`cmd.key` = key" taken from stage 1 (`KW`, `HN`), and — instead of a record-level invariant on
+sequence numbers — the stage-1 invariant `SimTick.SQ` (wheel sequence numbers below `db.seq`, pairwise distinct over the database) with the
+stability of `sortBySeq`; (2) `SimTick.EqL` (stage 1's firing phase does not read the `long` flag `collectT` clears); (3) the per-entry
+steps `sim_rearmT/E`, `sim_collectT`, `sim_fireT/E_live`, the stuttering drops `sim_visitT/E_stutter`, `sim_fireT/E_stutter`; (4) the folds
+(`pass1T`, `passLT`, `fireT_fold`, `pass1E`, `passLE`, `fireE_fold`) over `SimTick.PT` / `PE` (a pending wheel entry against stage 1's
+request / hold in the CURRENT state, kept by every step on another entry); (5) `SimTick.opTick_congr`. Follower-side deferral of `doExpried`
+has no stage-1 counterpart (stage 1's `fireExpire` is the leader's `doExpried`): ticks are simulated on the leader; C10 covers the deferral
+on the record-level model itself.
 -/
 namespace Slock.SimP
 open Slock Slock.Sim
